@@ -29,7 +29,7 @@ OpsCases ==
   \cup { Mk4(o, "swap", r, v) : o \in Ordering, r \in Ints, v \in Ints }
   \cup { Mk4(o, "swap", r, v) : o \in {"in", "ni"}, r \in StrLists, v \in Strs }
   \cup { Mk4(o, vt, r, I(2)) : o \in Ordering, vt \in {"age", "expiration"}, r \in Stamps }
-PolicyChars == { 97, 34, 39, 92, 10, 9, 233, 32 }
+PolicyChars == { 97, 34, 39, 92, 10, 9, 233, 32, 128049 }        \* (the last one lies outside the basic multilingual plane)
 RECURSIVE Seqs(_,_)
 Seqs(A, n) == IF n = 0 THEN {<<>>} ELSE LET r == Seqs(A, n - 1) IN r \cup { Append(s, a) : s \in { x \in r : Len(x) = n - 1 }, a \in A }
 Init == case = [op |-> "none"] /\ exp = Null
